@@ -56,9 +56,11 @@ func c15SeamScenario(c *choice.Ctx, rep *report.R, depth int) {
 	defer env.UninstallOwn()
 	seam := c15Seams()[c.Choose(len(c15Seams()), "seam")]
 	burst := []int{4, 8, 9}[c.Choose(3, "burst")]
+	// the upstream may fail every exchange: the client is answered SERVFAIL, and an admitted query still costs what it costs
+	upFails := c.Choose(2, "upstream-fails") == 1
 	var trace []string
 	fail := func(sig, msg string) {
-		rep.Violate("C15:"+seam+":"+sig, fmt.Sprintf("%s\n  burst=%d rate=1/s events: %s", msg, burst, strings.Join(trace, " ")), map[string]any{"Choices": c.Choices()})
+		rep.Violate("C15:"+seam+":"+sig, fmt.Sprintf("%s\n  burst=%d rate=1/s upstream-fails=%v events: %s", msg, burst, upFails, strings.Join(trace, " ")), map[string]any{"Choices": c.Choices()})
 	}
 	cfg := c03Config("forward")
 	cfg.Limiter.Client = ClientLimiterConfig{Limit: 1, Burst: burst}
@@ -69,7 +71,12 @@ func c15SeamScenario(c *choice.Ctx, rep *report.R, depth int) {
 	}
 	defer v.Close()
 	u := v.ups["u1"]
-	u.Auto = func(q *upQuery) *upResult { return &upResult{wire: env.Answer(q.Msg, 1, 60).Encode(false)} }
+	u.Auto = func(q *upQuery) *upResult {
+		if upFails {
+			return &upResult{err: errScripted}
+		}
+		return &upResult{wire: env.Answer(q.Msg, 1, 60).Encode(false)}
+	}
 	clients := map[string]string{"A": "127.1.1.7", "A2": "127.1.1.200", "B": "127.1.2.7"} // A, A2 share a /24
 	// per seam: a function that sends one query from a client and classifies what happened
 	type sender func(who string, id uint16) string
@@ -82,6 +89,10 @@ func c15SeamScenario(c *choice.Ctx, rep *report.R, depth int) {
 		switch m.RCode() {
 		case 0:
 			return "answer"
+		case 2:
+			if upFails {
+				return "answer" // admitted and forwarded; the upstream failed
+			}
 		case 5:
 			return "refused"
 		}
@@ -346,7 +357,7 @@ func TestVerifC15Seams(t *testing.T) {
 	rep := report.New("C15 admission seams")
 	defer rep.Write()
 	depth := report.ParamInt("DEPTH", 4)
-	rep.Rule = fmt.Sprintf("E3: real router with client limiter (rate 1/s, burst {4,8,9}, default masks) and auto-answering upstream; seams {udp (real loopback sockets), tcp (real accept loop over a fake listener + per-query check), gnet (OnOpen), http}; "+
+	rep.Rule = fmt.Sprintf("E3: real router with client limiter (rate 1/s, burst {4,8,9}, default masks) and an upstream that answers every query / fails every exchange; seams {udp (real loopback sockets), tcp (real accept loop over a fake listener + per-query check), gnet (OnOpen), http}; "+
 		"all sequences of length <=%d over {query from A, query from A2 (same /24), query from B (other /24), advance 1 s}; oracle: every query is either answered (and forwarded exactly once) or refused with REFUSED / 503 / connection refusal (and not forwarded); "+
 		"the first request of a subnet is never refused; admitted queries per subnet x their minimum cost <= burst + rate*window; "+
 		"plus (http seam, rate 20/s, burst {default, 60}): one subnet sends a query every {25,50,100,200} ms for 4 s (distinct names, every 4th a cache hit) while the upstream answers after {0, 0.2, 0.5, 1.5} s: same bound over every window", depth)
